@@ -24,6 +24,19 @@ CHECKS = {
     ),
 }
 
+CHECKS["C10"] = dict(
+    text="Seeded operation histories (set / add-duplicate / remove / item assignment / deletion / attribute-style access / text replacement, both error modes, rejected arguments as injected faults) on a declaration block in lock step with an executable ordered-multimap-with-cascade reference model, every accessor compared after every step; plus the enumerated sweep of every known property name through DOM-name access and the same map discipline for variables blocks.",
+    note="Acceptability of a (name, value, priority) triple is taken from a stand-alone Property; value pool restricted to values whose serialisation is a fixpoint; order among distinct names is only required to be self-consistent. Sampling, not proof.",
+    technique="deterministic simulation: seeded operation histories in lock step with an executable reference model, fork-isolated runs, ddmin-shrunk replays",
+    ref="DESIGN.md 5 C10",
+)
+CHECKS["C12"] = dict(
+    text="The whole process is the system under simulation: each run is a pristine forked interpreter driven through a seeded prefix of library calls with injected faults (undecodable bytes, fetcher returning nothing / raising / re-entering the library, missing files, raising parsers, rejected edits); the library-wide modes are compared before/after every parse-family call, a fixed probe battery is compared with the output it gave in the pristine process, reused parser objects with fresh ones, re-entrant fetchers with plain ones.",
+    note="Black-box: only public results, exception classes and log levels are compared (never log texts); white-box reads of prodparser.savedTokens / tokenizer push-back are reach statistics only. Thread interleavings are out of scope (documented thread-unsafe). Sampling, not proof.",
+    technique="deterministic simulation with fault injection: seeded call/fault histories in fork-isolated processes, state-restoration invariants and differential probe battery against a pristine baseline",
+    ref="DESIGN.md 5 C12",
+)
+
 PENDING = {'C01': "check not built yet in this round (claimed by DESIGN.md section 2; will move to 'checks' when its simulation world exists)", 'C03': "check not built yet in this round (claimed by DESIGN.md section 2; will move to 'checks' when its simulation world exists)", 'C08': "check not built yet in this round (claimed by DESIGN.md section 2; will move to 'checks' when its simulation world exists)", 'C09': "check not built yet in this round (claimed by DESIGN.md section 2; will move to 'checks' when its simulation world exists)", 'C10': "check not built yet in this round (claimed by DESIGN.md section 2; will move to 'checks' when its simulation world exists)", 'C11': "check not built yet in this round (claimed by DESIGN.md section 2; will move to 'checks' when its simulation world exists)", 'C12': "check not built yet in this round (claimed by DESIGN.md section 2; will move to 'checks' when its simulation world exists)", 'C14': "check not built yet in this round (claimed by DESIGN.md section 2; will move to 'checks' when its simulation world exists)", 'C15': "check not built yet in this round (claimed by DESIGN.md section 2; will move to 'checks' when its simulation world exists)", 'C16': "check not built yet in this round (claimed by DESIGN.md section 2; will move to 'checks' when its simulation world exists)", 'C17': "check not built yet in this round (claimed by DESIGN.md section 2; will move to 'checks' when its simulation world exists)", 'C19': "check not built yet in this round (claimed by DESIGN.md section 2; will move to 'checks' when its simulation world exists)"}
 
 
